@@ -26,3 +26,7 @@ pub mod verif_hooks_c10_export {
 /// C14: the real `add_peer_config` call site for the verification harness.
 #[cfg(feature = "verif-hooks")]
 pub mod verif_hooks_c14;
+
+/// C19: the real router-info / router-list HTML pages for the verification harness.
+#[cfg(feature = "verif-hooks")]
+pub mod verif_hooks_c19;
